@@ -200,7 +200,9 @@ def rule_sub3(ctx: Ctx) -> RuleResult:
                 r.ob(True)
                 continue
             order = ("on_next", "on_error", "on_completed")
-            have = set(kws) | set(order[:len(pos)])
+            # a handler given as None is no handler (RxPY substitutes its default)
+            isnone = lambda a: isinstance(a, ast.Constant) and a.value is None
+            have = {k.arg for k in n.keywords if not isnone(k.value)} | {c for c, a in zip(order, pos) if not isnone(a)}
             missing = {c for c in order if c not in have}
             ex = SUB3_EXEMPT.get((rel, recv))
             if ex is not None:
@@ -388,6 +390,11 @@ def rule_cfg1(ctx: Ctx, memo_is_finding=True) -> RuleResult:
                                         "equal to an earlier one but distinguishable from it (1 / 1.0 / True, a namedtuple differing in such a field) gets the "
                                         "earlier item's result, and a function that is not pure is not re-evaluated" % (name, ast.unparse(s)[:60])))
                                     continue
+                                if not others and not isinstance(s, ast.AugAssign):
+                                    # a constant assigned under a condition on something else than the parameter itself: the handlers see the
+                                    # caller's value for some arguments and the constant for others, by a rule the valuations do not describe
+                                    g = _guard_names(m, f, s)
+                                    others = [x for x in g if x != name]
                                 if others or isinstance(s, ast.AugAssign):
                                     raise AnalysisError(
                                         "%s: the parameter '%s', which the handlers of %s test, is recomputed in %s (%s): the handlers no longer see the value "
@@ -398,6 +405,32 @@ def rule_cfg1(ctx: Ctx, memo_is_finding=True) -> RuleResult:
                 r.ob(True)
     r.require_instances(ctx.scaled(30))
     return r
+
+
+def _guard_names(m, f, stmt):
+    """names and attributes read by the tests of the if / while statements of f that enclose stmt"""
+    out = []
+
+    def walk(body, guards):
+        for s in body:
+            if s is stmt:
+                for g in guards:
+                    for x in ast.walk(g):
+                        if isinstance(x, ast.Name) and x.id not in ("None", "True", "False", "isinstance", "type", "len", "callable"):
+                            out.append(x.id)
+                        elif isinstance(x, ast.Attribute):
+                            out.append("." + x.attr)
+                return True
+            for fld in ("body", "orelse", "finalbody", "handlers"):
+                b = getattr(s, fld, None)
+                if isinstance(b, list) and b and not isinstance(s, (ast.FunctionDef, ast.Lambda, ast.ClassDef)):
+                    g2 = guards + [s.test] if isinstance(s, (ast.If, ast.While)) else guards
+                    bb = [h for h in b] if fld != "handlers" else [x for h in b for x in h.body]
+                    if walk(bb, g2):
+                        return True
+        return False
+    walk(f.body, [])
+    return out
 
 
 ONE_SHOT_CALLS = ("map", "filter", "zip", "iter", "reversed", "enumerate")
@@ -422,16 +455,12 @@ def rule_gen1(ctx: Ctx) -> RuleResult:
             if not isinstance(fn, ast.FunctionDef) or id(fn) in per_sub:
                 continue
             inner = [g for g in ast.walk(fn) if isinstance(g, (ast.FunctionDef, ast.Lambda)) and g is not fn]
-            if not inner:
-                continue
             n_scopes += 1
-            for s in ast.walk(fn):
+            for s in (ast.walk(fn) if inner else ()):
                 if not isinstance(s, ast.Assign) or m.enclosing_function(s) is not fn or len(s.targets) != 1 or not isinstance(s.targets[0], ast.Name):
                     continue
                 v = s.value
-                one_shot = isinstance(v, ast.GeneratorExp) or (
-                    isinstance(v, ast.Call) and isinstance(v.func, ast.Name) and v.func.id in ONE_SHOT_CALLS and v.func.id not in sc.locals
-                    and v.func.id not in m.bindings)
+                one_shot = _one_shot(prog, m, sc, v)
                 if not one_shot:
                     continue
                 name = s.targets[0].id
@@ -443,9 +472,238 @@ def rule_gen1(ctx: Ctx) -> RuleResult:
                     "'%s' is a one-shot iterator (%s) created when %s is called and consumed at %s inside a function that %s returns: the first "
                     "application / subscription exhausts it, every later one sees an empty sequence" % (
                         name, ast.unparse(s.value)[:60], sc.qualname, m.where(uses[0]), sc.qualname)))
+            # ... or handed to another operator factory of the repository, which consumes it inside a function it returns:
+            # start_with(repeat(value, size)) -- start_with iterates its padding at the first item of every key
+            for c in ast.walk(fn):
+                if not isinstance(c, ast.Call) or m.enclosing_function(c) is not fn:
+                    continue
+                dn = dotted_name(c.func)
+                ref = prog.resolve_dotted(m, dn) if dn else None
+                if not ref or ref[0] != "def" or not ref[1].name.startswith("rxsci"):
+                    continue
+                cm, callee = ref[1], ref[2]
+                pos = [a.arg for a in callee.args.args]
+                given = [(pos[k], a) for k, a in enumerate(c.args) if k < len(pos) and not isinstance(a, ast.Starred)]
+                given += [(kw.arg, kw.value) for kw in c.keywords if kw.arg]
+                for pname, a in given:
+                    src = a
+                    if isinstance(a, ast.Name):
+                        asg = [s_ for s_ in ast.walk(fn) if isinstance(s_, ast.Assign) and m.enclosing_function(s_) is fn and len(s_.targets) == 1
+                               and isinstance(s_.targets[0], ast.Name) and s_.targets[0].id == a.id]
+                        src = asg[0].value if len(asg) == 1 else None
+                    if src is None or not _one_shot(prog, m, sc, src):
+                        continue
+                    cinner = [g for g in ast.walk(callee) if isinstance(g, (ast.FunctionDef, ast.Lambda)) and g is not callee]
+                    cuses = [x for g in cinner for x in ast.walk(g) if isinstance(x, ast.Name) and x.id == pname and isinstance(x.ctx, ast.Load)
+                             and pname not in (cm.scopes[g].params if g in cm.scopes else ()) and pname not in (cm.scopes[g].locals if g in cm.scopes else ())]
+                    r.groups.add((rel, sc.qualname, "arg:" + pname))
+                    r.ob(not cuses, lambda c=c, src=src, pname=pname, cuses=cuses, callee=callee, cm=cm, sc=sc: Finding(
+                        "GEN-1", "%s::%s{%s(%s=)}" % (rel, sc.qualname, callee.name, pname), m.where(c),
+                        "%s is a one-shot iterator handed to %s as '%s', which consumes it at %s inside a function it returns (once per subscription "
+                        "or per key): the first consumer exhausts it, every later one sees an empty sequence" % (
+                            ast.unparse(src)[:50], callee.name, pname, cm.where(cuses[0]))))
     r.instances = max(n_scopes, 1)
     r.ob(True)
     return r
+
+
+ITERTOOLS_ONE_SHOT = ("repeat", "chain", "islice", "cycle", "count", "accumulate", "starmap", "takewhile", "dropwhile", "zip_longest", "product",
+                      "permutations", "combinations", "combinations_with_replacement", "groupby", "compress", "filterfalse", "pairwise", "batched")
+
+
+def _one_shot(prog, m, sc, v):
+    """v evaluates to an iterator that can be walked once: a generator expression, map / filter / zip / iter / reversed / enumerate, or
+    anything from itertools"""
+    if isinstance(v, ast.GeneratorExp):
+        return True
+    if not isinstance(v, ast.Call):
+        return False
+    if isinstance(v.func, ast.Name) and v.func.id in ONE_SHOT_CALLS and v.func.id not in sc.locals and v.func.id not in m.bindings:
+        return True
+    dn = dotted_name(v.func)
+    ref = prog.resolve_dotted(m, dn) if dn else None
+    if ref and ref[0] in ("ext", "unknown") and isinstance(ref[1], str) and ref[1].startswith("itertools.") and ref[1].split(".")[-1] in ITERTOOLS_ONE_SHOT:
+        return True
+    return False
+
+
+MUTATORS = ("append", "extend", "insert", "pop", "remove", "clear", "sort", "reverse", "update", "setdefault", "popitem", "add", "discard",
+            "appendleft", "popleft", "extendleft", "rotate")
+
+
+def rule_arg1(ctx: Ctx) -> RuleResult:
+    """ARG-1: an operator factory does not change the objects it was given.  The caller's list of stages, of sources, of columns is
+    the caller's: a factory that inserts into it, sorts it or pops from it -- directly or through a local alias (x = p, x = p if ...
+    else ..., x = p or ...) -- changes what the caller's next use of that object means (the same list handed to a second operator)."""
+    r = RuleResult("ARG-1", "operator factories do not mutate their arguments in place (no mutating method, subscript store, del or augmented "
+                            "assignment on a parameter or a local alias of it)")
+    prog = ctx.program
+    public = _public_functions(prog)
+    for rel, m in sorted(prog.by_relpath.items()):
+        if (ctx.scope is not None and rel not in ctx.scope) or not rel.startswith("rxsci/"):
+            continue
+        for fn in m.tree.body:
+            if not isinstance(fn, ast.FunctionDef):
+                continue
+            if not any(isinstance(g, (ast.FunctionDef, ast.Lambda)) and g is not fn for g in ast.walk(fn)) and (rel, fn.name) not in public:
+                continue                  # neither a factory (nothing it returns outlives the call) nor an exported entry point: an internal
+                                          # helper may exist to update the object it is given (new_index(next_index, free_slots))
+            params = {a.arg for a in fn.args.args + fn.args.kwonlyargs + fn.args.posonlyargs}
+            if fn.args.vararg:
+                params.add(fn.args.vararg.arg)
+            r.instances += 1
+            if not params:
+                r.ob(True)
+                continue
+            alias = set(params)
+
+            def from_alias(v):
+                if isinstance(v, ast.Name):
+                    return v.id in alias
+                if isinstance(v, ast.IfExp):
+                    return from_alias(v.body) or from_alias(v.orelse)
+                if isinstance(v, ast.BoolOp):
+                    return any(from_alias(x) for x in v.values)
+                return False
+            # a name that is, somewhere in the factory, bound to something that is not the caller's object (pipeline = list(pipeline))
+            # may mean the factory's own copy from there on: mutations through it are not judged
+            for s in ast.walk(fn):
+                if isinstance(s, ast.Assign) and not from_alias(s.value):
+                    for tg in s.targets:
+                        for x in ast.walk(tg):
+                            if isinstance(x, ast.Name) and isinstance(x.ctx, ast.Store) and x.id in alias:
+                                alias.discard(x.id)
+            own = set(params) - alias
+            changed = True
+            while changed:
+                changed = False
+                for s in ast.walk(fn):
+                    if isinstance(s, ast.Assign) and m.enclosing_function(s) is fn and from_alias(s.value):
+                        for tg in s.targets:
+                            if isinstance(tg, ast.Name) and tg.id not in alias and tg.id not in own and not any(
+                                    isinstance(s2, ast.Assign) and s2 is not s and not from_alias(s2.value) and any(
+                                        isinstance(x, ast.Name) and x.id == tg.id for t2 in s2.targets for x in ast.walk(t2)) for s2 in ast.walk(fn)):
+                                alias.add(tg.id)
+                                changed = True
+
+            def visible(node, name):
+                # the name still means the factory's variable at this node (not shadowed by a parameter / local of a nested function)
+                f = m.enclosing_function(node)
+                while f is not None and f is not fn:
+                    scx = m.scopes.get(f)
+                    if scx is not None and (name in scx.params or (name in scx.locals and name not in getattr(scx, "nonlocals", ()))):
+                        return False
+                    f = m.enclosing_function(f)
+                return f is fn
+            for n in ast.walk(fn):
+                hit = None
+                if isinstance(n, ast.Call) and isinstance(n.func, ast.Attribute) and n.func.attr in MUTATORS and isinstance(n.func.value, ast.Name) \
+                        and n.func.value.id in alias and visible(n, n.func.value.id):
+                    hit = (n.func.value.id, ".%s(...)" % n.func.attr)
+                elif isinstance(n, (ast.Assign, ast.AugAssign, ast.Delete)):
+                    tgs = n.targets if isinstance(n, (ast.Assign, ast.Delete)) else [n.target]
+                    for tg in tgs:
+                        if isinstance(tg, ast.Subscript) and isinstance(tg.value, ast.Name) and tg.value.id in alias and visible(n, tg.value.id):
+                            hit = (tg.value.id, "[...] = / del")
+                        elif isinstance(n, ast.AugAssign) and isinstance(tg, ast.Name) and tg.id in alias and visible(n, tg.id) \
+                                and isinstance(n.op, (ast.Add, ast.BitOr, ast.BitAnd, ast.Mult)) and not isinstance(n.value, ast.Constant):
+                            hit = (tg.id, "augmented assignment (in place for a list / set / dict)")
+                if hit is None:
+                    continue
+                r.ob(False, lambda n=n, hit=hit, fn=fn: Finding(
+                    "ARG-1", "%s::%s{%s}" % (rel, fn.name, hit[0]), m.where(n),
+                    "'%s' in %s changes, in place, an object the caller handed in ('%s' is a parameter of %s or a local alias of one: %s): the "
+                    "caller's object is different after the call, so the same list given to a second operator, or the operator built twice, "
+                    "does not mean what it says" % (ast.unparse(n)[:60], fn.name, hit[0], fn.name, hit[1])))
+            r.ob(True)
+    r.require_instances(1)
+    return r
+
+
+def _public_functions(prog):
+    """{(module path, function name)} of the functions a user reaches through the packages: names a package __init__ imports from a
+    module, and the functions without a leading underscore of a module a package imports whole (rs.container.csv.load, rs.framing.line.unframe)"""
+    out = set()
+    import posixpath
+    for rel, m in prog.by_relpath.items():
+        if not rel.endswith("__init__.py"):
+            continue
+        pkg = posixpath.dirname(rel)
+        for s in m.tree.body:
+            if isinstance(s, ast.ImportFrom) and s.level == 1:
+                if s.module:
+                    target = posixpath.join(pkg, *s.module.split(".")) + ".py"
+                    tinit = posixpath.join(pkg, *s.module.split("."), "__init__.py")
+                    for a in s.names:
+                        out.add((target, a.name))
+                        out.add((tinit, a.name))
+                else:
+                    for a in s.names:
+                        whole = posixpath.join(pkg, a.name + ".py")
+                        wm = prog.by_relpath.get(whole)
+                        if wm is not None:
+                            out |= {(whole, f.name) for f in wm.tree.body if isinstance(f, ast.FunctionDef) and not f.name.startswith("_")}
+            elif isinstance(s, ast.Import):
+                for a in s.names:
+                    if a.name.startswith("rxsci."):
+                        whole = a.name.replace(".", "/") + ".py"
+                        wm = prog.by_relpath.get(whole)
+                        if wm is not None:
+                            out |= {(whole, f.name) for f in wm.tree.body if isinstance(f, ast.FunctionDef) and not f.name.startswith("_")}
+    return out
+
+
+def rule_cache1(ctx: Ctx) -> RuleResult:
+    """CACHE-1: no function applied to stream data is memoised by functools.lru_cache / functools.cache: the cache answers by hash and ==,
+    so 1, 1.0 and True (0, 0.0, -0.0, False) get each other's results -- the text of whichever was formatted first, the parse of
+    whichever was seen first."""
+    r = RuleResult("CACHE-1", "no function applied per item is memoised by == / hash (functools.lru_cache, functools.cache): equal but distinguishable "
+                              "values (1 / 1.0 / True, 0.0 / -0.0) would share one result")
+    prog = ctx.program
+    per_item = set()
+    for site in ctx.all_sites:
+        if site.subscribe_fn is not None:
+            for g in ast.walk(site.subscribe_fn):
+                if isinstance(g, (ast.FunctionDef, ast.Lambda)):
+                    per_item.add(id(g))
+
+    def is_cache(dec, m):
+        d = dec.func if isinstance(dec, ast.Call) else dec
+        dn = dotted_name(d)
+        ref = prog.resolve_dotted(m, dn) if dn else None
+        return bool(ref) and ref[0] in ("ext", "unknown") and isinstance(ref[1], str) and ref[1] in ("functools.lru_cache", "functools.cache")
+    for rel, m in sorted(prog.by_relpath.items()):
+        if (ctx.scope is not None and rel not in ctx.scope) or not rel.startswith("rxsci/"):
+            continue
+        r.instances += 1
+        cached = {}
+        for fn in ast.walk(m.tree):
+            if isinstance(fn, ast.FunctionDef) and fn.args.args and any(is_cache(d, m) for d in fn.decorator_list):
+                cached[fn.name] = fn
+        for s in ast.walk(m.tree):
+            # f = lru_cache(...)(g)
+            if isinstance(s, ast.Assign) and len(s.targets) == 1 and isinstance(s.targets[0], ast.Name) and isinstance(s.value, ast.Call) \
+                    and (is_cache(s.value.func, m) or (isinstance(s.value.func, ast.Call) and is_cache(s.value.func, m))):
+                cached[s.targets[0].id] = s
+        for name, d in sorted(cached.items()):
+            uses = [c for c in ast.walk(m.tree) if isinstance(c, ast.Call) and isinstance(c.func, ast.Name) and c.func.id == name and c.args
+                    and any(id(f) in per_item for f in _enclosing_chain(m, c))]
+            r.groups.add((rel, name))
+            r.ob(not uses, lambda name=name, d=d, uses=uses: Finding(
+                "CACHE-1", "%s::%s{memoised}" % (rel, name), m.where(d),
+                "%s is memoised by functools (lru_cache / cache) and applied per item at %s: the cache looks its argument up by hash and ==, so "
+                "values that are equal but not the same (1, 1.0, True; 0.0, -0.0, False) get the result computed for whichever came first -- "
+                "'1.0' written for True, '0.0' for -0.0" % (name, m.where(uses[0]))))
+        r.ob(True)
+    r.require_instances(1)
+    return r
+
+
+def _enclosing_chain(m, node):
+    f = m.enclosing_function(node)
+    while f is not None:
+        yield f
+        f = m.enclosing_function(f)
 
 
 RULES = [rule_sub1, rule_sub2, rule_sub3, rule_gen1, rule_gen3, rule_cfg1]
